@@ -639,10 +639,15 @@ class GMMMachine(BaseEstimator):
             )
             gaussians_group = hdf5["gaussians"]
             self.means = gaussians_group["means"][...]
+            # Restore the floors first, and a scalar floor as the plain Python
+            # number it was when it was set: clamping the stored variances with
+            # a float64 (0-d array or default) floor would promote single
+            # precision variances to float64
+            variance_thresholds = gaussians_group["variance_thresholds"][...]
+            if variance_thresholds.ndim == 0:
+                variance_thresholds = variance_thresholds.item()
+            self.variance_thresholds = variance_thresholds
             self.variances = gaussians_group["variances"][...]
-            self.variance_thresholds = gaussians_group["variance_thresholds"][
-                ...
-            ]
         else:  # Legacy file version
             logger.info("Loading a legacy HDF5 machine file.")
             n_gaussians = hdf5["m_n_gaussians"][()][0]
